@@ -20,8 +20,9 @@ const PAGE: usize = 16384;
 const ALL_VALUES_MAX_LEN: usize = 160;
 const SMALL6: [u8; 6] = [0x00, 0x01, 0x7F, 0x80, 0xFE, 0xFF];
 const HANG_A_S: u32 = 2;
-const HANG_B_S: u32 = 5;
-const MAX_DEATHS_PER_BLOCK: usize = 24;
+const HANG_B_S: u32 = 2;
+/// a timeout inside a block is a verdict only if the case alone also exceeds this multiple of the limit
+const HANG_CONFIRM_MULT: u32 = 3;
 
 // ======================================================================
 // isolation: run a closure in a forked child
@@ -95,6 +96,9 @@ mod iso {
         pub capped: Option<String>,
         pub harness_panic: Option<String>,
         pub notes: BTreeSet<String>,
+        /// first case index of the block not covered by this (partial) report
+        #[serde(default)]
+        pub next: u64,
     }
 
     pub struct Died {
@@ -130,7 +134,7 @@ mod iso {
         }
         if pid == 0 {
             unsafe {
-                let lim = libc::rlimit { rlim_cur: 4 << 30, rlim_max: 4 << 30 };
+                let lim = libc::rlimit { rlim_cur: 3 << 29, rlim_max: 3 << 29 };
                 libc::setrlimit(libc::RLIMIT_AS, &lim);
                 let core = libc::rlimit { rlim_cur: 0, rlim_max: 0 };
                 libc::setrlimit(libc::RLIMIT_CORE, &core);
@@ -152,7 +156,7 @@ mod iso {
                 Err(_) => 3,
             };
             unsafe {
-                libc::alarm(0);
+                super::disarm_watchdog();
                 libc::_exit(code)
             };
         }
@@ -184,7 +188,13 @@ mod iso {
             panic!("harness failure inside child (outside any oracle): {p}");
         } else if libc::WIFSIGNALED(status) {
             let sig = libc::WTERMSIG(status);
-            let how = if sig == libc::SIGALRM { "hang-signal14".to_string() } else { format!("signal{sig}") };
+            let how = if sig == libc::SIGPROF {
+                "hang-cpu-signal27".to_string()
+            } else if sig == libc::SIGALRM {
+                "hang-wall-signal14".to_string()
+            } else {
+                format!("signal{sig}")
+            };
             (outs, Some(Died { how, block: shared.get_block(), at: shared.get(), sub: shared.get_sub() }))
         } else {
             (outs, Some(Died { how: format!("exit{}", libc::WEXITSTATUS(status)), block: shared.get_block(), at: shared.get(), sub: shared.get_sub() }))
@@ -374,15 +384,31 @@ enum Mode<'a> {
     Prefix { sel: Sel, upto: u64, skip: &'a [u64] },
 }
 
-fn child_run_block(b: &dyn Block, mode: &Mode, env: &mut Env, shared: &Shared, out: &mut Out, hang_mult: u32, deadline: Option<std::time::Instant>) {
+/// Watchdog: `cpu_s` seconds of CPU time (user+sys, ITIMER_PROF → SIGPROF) — immune to
+/// the process being descheduled on a loaded machine — plus a wall-clock backstop
+/// (SIGALRM) for hangs that do not burn CPU (deadlock, sleep).
+const WALL_BACKSTOP_MULT: u32 = 30;
+fn arm_watchdog(cpu_s: u32) {
+    unsafe {
+        let it = libc::itimerval { it_interval: libc::timeval { tv_sec: 0, tv_usec: 0 }, it_value: libc::timeval { tv_sec: cpu_s as libc::time_t, tv_usec: 0 } };
+        libc::setitimer(libc::ITIMER_PROF, &it, std::ptr::null_mut());
+        libc::alarm(cpu_s * WALL_BACKSTOP_MULT);
+    }
+}
+fn disarm_watchdog() {
+    arm_watchdog(0);
+}
+
+fn child_run_block(b: &dyn Block, mode: &Mode, from: u64, env: &mut Env, shared: &Shared, out: &mut Out, hang_mult: u32, deadline: Option<std::time::Instant>, mut emit: Option<&mut dyn FnMut(&Out)>) {
     let info = b.info();
     let mut seen: BTreeSet<(&'static str, u8)> = BTreeSet::new();
     let limit = info.hang_s * hang_mult;
+    let chunk: u64 = if info.alarm_every == 1 { 256 } else { 8192 };
     let k = std::cell::Cell::new(0u64);
     let run_one = |i: u64, env: &mut Env, out: &mut Out, seen: &mut BTreeSet<(&'static str, u8)>| {
         shared.set(i);
         if k.get() % info.alarm_every == 0 {
-            unsafe { libc::alarm(limit) };
+            arm_watchdog(limit);
         }
         k.set(k.get() + 1);
         out.cases += 1;
@@ -390,11 +416,17 @@ fn child_run_block(b: &dyn Block, mode: &Mode, env: &mut Env, shared: &Shared, o
             out.nontrivial += 1;
         }
     };
+    let flush_seen = |seen: &mut BTreeSet<(&'static str, u8)>, out: &mut Out| {
+        for (sub, cls) in seen.iter() {
+            out.outcomes.insert(format!("{}.{}:{}", info.dec, sub, ["ok", "err", "panic"][*cls as usize]));
+        }
+        seen.clear();
+    };
     match mode {
         Mode::Only(i) => run_one(*i, env, out, &mut seen),
         Mode::All { sel, skip } | Mode::Prefix { sel, skip, .. } => {
             let upto = if let Mode::Prefix { upto, .. } = mode { (*upto + 1).min(info.n) } else { info.n };
-            let mut i = 0u64;
+            let mut i = from;
             while i < upto && !sel.mine(i) {
                 i += 1;
             }
@@ -402,9 +434,18 @@ fn child_run_block(b: &dyn Block, mode: &Mode, env: &mut Env, shared: &Shared, o
                 if !skip.contains(&i) {
                     run_one(i, env, out, &mut seen);
                     if let Some(d) = deadline {
-                        if k.get() % 256 == 0 && std::time::Instant::now() >= d {
+                        if k.get() % 64 == 0 && std::time::Instant::now() >= d {
                             out.capped = Some(format!("deadline inside block {} at case {}", info.key, i));
                             break;
+                        }
+                    }
+                    if k.get() % chunk == 0 {
+                        if let Some(e) = emit.as_mut() {
+                            disarm_watchdog();
+                            flush_seen(&mut seen, out);
+                            out.next = i + sel.m;
+                            e(out);
+                            *out = Out::default();
                         }
                     }
                 }
@@ -412,10 +453,9 @@ fn child_run_block(b: &dyn Block, mode: &Mode, env: &mut Env, shared: &Shared, o
             }
         }
     }
-    unsafe { libc::alarm(0) };
-    for (sub, cls) in seen {
-        out.outcomes.insert(format!("{}.{}:{}", info.dec, sub, ["ok", "err", "panic"][cls as usize]));
-    }
+    disarm_watchdog();
+    flush_seen(&mut seen, out);
+    out.next = info.n;
 }
 
 fn merge_out(rep: &mut Reporter, info: &BlockInfo, o: &Out) {
@@ -455,9 +495,13 @@ fn death_case(b: &dyn Block, i: u64, mode: &str, sel: Option<Sel>, skip: &[u64])
 }
 
 /// Run blocks `from..` in one forked child; on a death attribute the case,
-/// confirm it alone in a fresh child, skip it and resume at the block it died in.
+/// confirm it alone in a fresh child (once per block and signature), skip it
+/// and resume the block after its last completed chunk.
 fn run_group(blocks: &[Box<dyn Block>], sels: &[Sel], from: usize, mut skips: BTreeMap<usize, Vec<u64>>, ctx: &Ctx, rep: &mut Reporter, shared: &Shared, env: &mut Env) {
+    let max_deaths = ctx.tier.pick(2usize, 24usize);
     let mut start = from;
+    let mut start_case = 0u64;
+    let mut confirmed: BTreeSet<(usize, String)> = BTreeSet::new();
     while start < blocks.len() {
         rep.begin_case(&json!({"mode": "group", "block": blocks[start].info().key, "from": start, "skips": skips.iter().map(|(k, v)| (k.to_string(), v.clone())).collect::<BTreeMap<_, _>>(),
                                "sel": sels[start].json()}).to_string());
@@ -479,7 +523,11 @@ fn run_group(blocks: &[Box<dyn Block>], sels: &[Sel], from: usize, mut skips: BT
                 let empty = Vec::new();
                 let skip = skips.get(&bi).unwrap_or(&empty);
                 let t0 = std::time::Instant::now();
-                child_run_block(b, &Mode::All { sel: sels[bi], skip }, env, shared, &mut out, 1, Some(dl));
+                let first = if bi == start { start_case } else { 0 };
+                {
+                    let mut e = |o: &Out| em.emit(bi, o);
+                    child_run_block(b, &Mode::All { sel: sels[bi], skip }, first, env, shared, &mut out, 1, Some(dl), Some(&mut e));
+                }
                 let top = b.info().dec.split('.').next().unwrap_or("").to_string();
                 *out.counters.entry(format!("{top}.cpu_ms")).or_insert(0) += t0.elapsed().as_millis() as u64;
                 let stop = out.capped.is_some();
@@ -490,9 +538,12 @@ fn run_group(blocks: &[Box<dyn Block>], sels: &[Sel], from: usize, mut skips: BT
             }
         });
         let mut capped = false;
+        let mut resume: BTreeMap<usize, u64> = BTreeMap::new();
         for (bi, o) in &outs {
             merge_out(rep, blocks[*bi].info(), o);
             capped |= o.capped.is_some();
+            let e = resume.entry(*bi).or_insert(0);
+            *e = (*e).max(o.next);
         }
         let Some(d) = died else { break };
         if capped {
@@ -505,36 +556,51 @@ fn run_group(blocks: &[Box<dyn Block>], sels: &[Sel], from: usize, mut skips: BT
         let b = blocks[bi].as_ref();
         let info = b.info();
         rep.count("child_deaths", 1);
-        let (single_outs, single) = iso::run_child(&ctx.scratch, shared, |em| {
-            shared.set_block(bi as u64);
-            let mut out = Out::default();
-            child_run_block(b, &Mode::Only(d.at), env, shared, &mut out, 5, None);
-            em.emit(bi, &out);
-        });
         let skip_now = skips.get(&bi).cloned().unwrap_or_default();
-        match single {
-            Some(d2) => {
-                let sig = format!("C23/{}.{}/{}/{}", info.dec, d2.sub, info.kind, d2.how);
-                rep.violation("C23", "no-crash", &sig, || death_case(b, d.at, "single", None, &[]), "call returns Ok or Err", &format!("child process died: {} (in block run: {})", d2.how, d.how));
-            }
-            None if d.how.starts_with("hang") => {
-                // the case completes when run alone with a 5x limit: machine load, not a hang
-                for (_, o) in &single_outs {
-                    merge_out(rep, info, o);
+        let ckey = (bi, format!("{}|{}", d.sub, d.how));
+        if confirmed.contains(&ckey) && !d.how.starts_with("hang") {
+            // same sub-decoder and signal as an already confirmed death of this block: record without a second confirmation run
+            let sig = format!("C23/{}.{}/{}/{}", info.dec, d.sub, info.kind, d.how);
+            rep.violation("C23", "no-crash", &sig, || death_case(b, d.at, "single", None, &[]), "call returns Ok or Err", &format!("child process died: {}", d.how));
+        } else {
+            let (single_outs, single) = iso::run_child(&ctx.scratch, shared, |em| {
+                shared.set_block(bi as u64);
+                let mut out = Out::default();
+                child_run_block(b, &Mode::Only(d.at), 0, env, shared, &mut out, HANG_CONFIRM_MULT, None, None);
+                em.emit(bi, &out);
+            });
+            match single {
+                Some(d2) => {
+                    let sig = format!("C23/{}.{}/{}/{}", info.dec, d2.sub, info.kind, d2.how);
+                    rep.violation("C23", "no-crash", &sig, || death_case(b, d.at, "single", None, &[]), "call returns Ok or Err", &format!("child process died: {} (in block run: {})", d2.how, d.how));
+                    confirmed.insert((bi, format!("{}|{}", d2.sub, d2.how)));
                 }
-                rep.count("timeouts_not_confirmed_alone", 1);
-                rep.note("a watchdog timeout inside a block was not confirmed when the case ran alone (completed): counted in timeouts_not_confirmed_alone, not a violation");
-            }
-            None => {
-                let sig = format!("C23/{}.{}/{}/{}-in-sequence", info.dec, d.sub, info.kind, d.how);
-                rep.violation("C23", "no-crash", &sig, || death_case(b, d.at, "prefix", Some(sels[bi]), &skip_now), "call returns Ok or Err", &format!("child process died: {} (only after the preceding cases of the block)", d.how));
+                None if d.how.starts_with("hang") => {
+                    // the case completes when run alone with a 3x limit: machine load, not a hang
+                    for (_, o) in &single_outs {
+                        merge_out(rep, info, o);
+                    }
+                    rep.count("timeouts_not_confirmed_alone", 1);
+                    rep.note("a watchdog timeout inside a block was not confirmed when the case ran alone (completed): counted in timeouts_not_confirmed_alone, not a violation");
+                }
+                None => {
+                    let sig = format!("C23/{}.{}/{}/{}-in-sequence", info.dec, d.sub, info.kind, d.how);
+                    rep.violation("C23", "no-crash", &sig, || death_case(b, d.at, "prefix", Some(sels[bi]), &skip_now), "call returns Ok or Err", &format!("child process died: {} (only after the preceding cases of the block)", d.how));
+                }
             }
         }
         let e = skips.entry(bi).or_default();
         e.push(d.at);
-        if e.len() >= MAX_DEATHS_PER_BLOCK {
-            rep.capped(&format!("block {}: {} deadly cases, rest of the block not explored by this worker", info.key, MAX_DEATHS_PER_BLOCK));
+        let real_deaths = e.len();
+        start_case = resume.get(&bi).copied().unwrap_or(if bi == start { start_case } else { 0 });
+        if real_deaths >= max_deaths {
+            // divergence: this block keeps killing the process; cut the rest of it for this worker
+            let remaining = (info.n.saturating_sub(d.at)) / sels[bi].m.max(1);
+            rep.pruned(remaining);
+            rep.count("blocks_cut_after_repeated_deaths", 1);
+            rep.note(&format!("a block is cut (rest pruned) for a worker after {max_deaths} deadly cases in it; see counter blocks_cut_after_repeated_deaths"));
             start = bi + 1;
+            start_case = 0;
         } else {
             start = bi;
         }
@@ -680,13 +746,19 @@ pub struct Seed {
     pub aux: Aux,
     /// structural regions enumerated densely even in the quick tier (large seeds)
     pub dense: Vec<std::ops::Range<usize>>,
+    /// left to the thorough tier (expensive file-based decoders)
+    pub thorough_only: bool,
 }
 impl Seed {
     fn new(name: &str, bytes: Vec<u8>) -> Seed {
-        Seed { name: name.to_string(), bytes, aux: Aux::None, dense: vec![] }
+        Seed { name: name.to_string(), bytes, aux: Aux::None, dense: vec![], thorough_only: false }
     }
     fn aux(mut self, a: Aux) -> Seed {
         self.aux = a;
+        self
+    }
+    fn thorough_only(mut self, t: bool) -> Seed {
+        self.thorough_only = t;
         self
     }
     fn dense(mut self, d: Vec<std::ops::Range<usize>>) -> Seed {
@@ -706,9 +778,9 @@ pub struct Decoder {
     pub f: fn(&Seed, &[u8], &mut Rec),
 }
 
-fn offsets_for(seed: &Seed, quick: bool, stride_quick: usize) -> Vec<u32> {
+fn offsets_for(seed: &Seed, quick: bool, stride_quick: usize, io: bool) -> Vec<u32> {
     let n = seed.bytes.len();
-    if !quick || n <= 1024 {
+    if !quick || n <= if io { ALL_VALUES_MAX_LEN } else { 1024 } {
         return (0..n as u32).collect();
     }
     let mut keep = vec![false; n];
@@ -1857,7 +1929,7 @@ mod dec3 {
         let mut files: Vec<(String, Vec<u8>)> = seeddb::catalogs(scratch);
         files.push(("main-db".to_string(), file_of(db, "turdb.catalog").to_vec()));
         let body: Vec<Seed> = files.iter().map(|(n, b)| Seed::new(n, b[128..].to_vec())).collect();
-        let whole: Vec<Seed> = files.iter().map(|(n, b)| Seed::new(n, b.clone()).dense(vec![0..128])).collect();
+        let whole: Vec<Seed> = files.iter().map(|(n, b)| Seed::new(n, b.clone()).dense(vec![0..128]).thorough_only(!(n == "cat_constraints" || n == "main-db"))).collect();
         vec![
             Decoder { io: false, name: "catalog", page: false, strings: true, seeds: body, f: d_catalog },
             Decoder { io: true, name: "catalog_file", page: false, strings: false, seeds: whole, f: d_catalog_file },
@@ -1950,7 +2022,7 @@ mod dec3 {
         seeds.push(Seed::new("one-frame", wal_frame(0, 1, 2, 3, None)).aux(Aux::Wal { file_id: 0, page_no: 1 }).dense(vec![0..96]));
         let mut two = wal_frame(5, 0, 2, 9, None);
         two.extend(wal_frame(5, 1, 2, 77, None));
-        seeds.push(Seed::new("two-frames-file5", two).aux(Aux::Wal { file_id: 5, page_no: 1 }).dense(vec![0..96, 16416..16416 + 96]));
+        seeds.push(Seed::new("two-frames-file5", two).aux(Aux::Wal { file_id: 5, page_no: 1 }).dense(vec![0..96, 16416..16416 + 96]).thorough_only(true));
         let mut un = wal_frame(0, 1, 2, 1, Some((3, 44)));
         un.extend(wal_frame(3, 1, 2, 2, None));
         let undo_id = (1u64 << 56) | (3u64 << 32) | 44;
@@ -1996,6 +2068,9 @@ fn part_a_blocks(ctx: &Ctx, only_key: Option<&str>) -> Vec<Box<dyn Block>> {
         let d = std::rc::Rc::new(d);
         // identity block: every seed must decode without panic (seed validity)
         for (si, seed) in d.seeds.iter().enumerate() {
+            if quick && seed.thorough_only {
+                continue;
+            }
             let kinds: &[Kind] = if d.page { &[Kind::Identity, Kind::Subst, Kind::Trunc, Kind::InsShift, Kind::DelShift, Kind::ZeroTail] } else { &[Kind::Identity, Kind::Subst, Kind::Trunc, Kind::Insert, Kind::Delete] };
             for &k in kinds {
                 let key = format!("A/{}/{}/{}", d.name, seed.name, k.name());
@@ -2004,8 +2079,8 @@ fn part_a_blocks(ctx: &Ctx, only_key: Option<&str>) -> Vec<Box<dyn Block>> {
                         continue;
                     }
                 }
-                let stride = if k == Kind::Subst { 64 } else { 256 };
-                let offs = if k == Kind::Identity { vec![] } else { offsets_for(seed, quick, stride) };
+                let stride = if d.io { if seed.bytes.len() <= 2048 { 16 } else { 1024 } } else if k == Kind::Subst { 64 } else { 256 };
+                let offs = if k == Kind::Identity { vec![] } else { offsets_for(seed, quick, stride, d.io) };
                 let n = kind_count(&seed.bytes, k, &offs);
                 blocks.push(Box::new(ABlock { info: BlockInfo { key, dec: d.name.to_string(), kind: k.name().to_string(), n, hang_s: HANG_A_S, alarm_every: if d.io { 1 } else { 64 } }, dec: d.clone(), seed: si, kind: k, offs }));
             }
@@ -2065,6 +2140,8 @@ mod partb {
         plan: Rc<Plan>,
         file: usize,
         cases: Vec<BCase>,
+        /// quick tier: query only the table that owns the corrupted file (None = every table)
+        only_table: Option<&'static str>,
     }
     fn subst_val(b: u8, vi: u8) -> Option<u8> {
         let list = [0x00, 0xFF, b ^ 1, b ^ 0x80];
@@ -2096,8 +2173,10 @@ mod partb {
     /// offsets of one file grouped by region kind
     fn regions(rel: &str, f: &[u8], quick: bool) -> BTreeMap<&'static str, Vec<u32>> {
         let mut m: BTreeMap<&'static str, BTreeSet<u32>> = BTreeMap::new();
-        let other_stride = if quick { 512 } else { 64 };
-        let cell_limit = if quick { 6 } else { usize::MAX };
+        let other_stride = if quick { 4096 } else { 64 };
+        let cell_limit = if quick { 1 } else { usize::MAX };
+        let cell_tail = if quick { 1 } else { 2 };
+        let cell_value_bytes = if quick { 8 } else { 24 };
         let mut add = |k: &'static str, r: std::ops::Range<usize>, len: usize| {
             let e = m.entry(k).or_default();
             for i in r.start.min(len)..r.end.min(len) {
@@ -2106,16 +2185,32 @@ mod partb {
         };
         let n = f.len();
         match class_of(rel) {
-            "catalog" => add("subst.catalog", 0..n, n),
+            "catalog" => {
+                add("subst.catalog", 0..128, n);
+                for i in (128..n).step_by(if quick { 8 } else { 1 }) {
+                    add("subst.catalog", i..i + 1, n);
+                }
+            }
             "wal" => {
-                for k in 0..n / FRAME {
+                let frames = n / FRAME;
+                for k in 0..frames {
+                    if quick && k >= 2 && k + 1 < frames {
+                        continue;
+                    }
                     let b = k * FRAME;
                     add("subst.walhdr", b..b + 32, n);
                     add("subst.pagehdr", b + 32..b + 32 + 24, n);
                 }
             }
             _ => {
-                add("subst.filehdr", 0..128, n);
+                if quick {
+                    add("subst.filehdr", 16..64, n);
+                    for i in (0..16).step_by(4).chain((64..128).step_by(16)) {
+                        add("subst.filehdr", i..i + 1, n);
+                    }
+                } else {
+                    add("subst.filehdr", 0..128, n);
+                }
                 for p in 1..n / PAGE {
                     let base = p * PAGE;
                     let page = &f[base..base + PAGE];
@@ -2125,7 +2220,7 @@ mod partb {
                             if let Ok(l) = LeafNode::from_page(page) {
                                 let cnt = l.cell_count() as usize;
                                 for i in 0..cnt {
-                                    if i >= cell_limit && i + 2 < cnt {
+                                    if i >= cell_limit && i + cell_tail < cnt {
                                         continue;
                                     }
                                     add("subst.slots", base + 24 + i * 8..base + 24 + (i + 1) * 8, n);
@@ -2134,7 +2229,7 @@ mod partb {
                                         let kl = s.key_len() as usize;
                                         let vs = off + kl;
                                         let vn = decode_varint(&page[vs.min(PAGE - 1)..]).map(|x| x.1).unwrap_or(1);
-                                        add("subst.cell", base + off..base + (vs + vn + 24).min(PAGE), n);
+                                        add("subst.cell", base + off..base + (vs + vn + cell_value_bytes).min(PAGE), n);
                                     }
                                 }
                             }
@@ -2144,7 +2239,7 @@ mod partb {
                             if let Ok(l) = InteriorNode::from_page(page) {
                                 let cnt = l.cell_count() as usize;
                                 for i in 0..cnt {
-                                    if i >= cell_limit && i + 2 < cnt {
+                                    if i >= cell_limit && i + cell_tail < cnt {
                                         continue;
                                     }
                                     add("subst.slots", base + 16 + i * 12..base + 16 + (i + 1) * 12, n);
@@ -2176,13 +2271,15 @@ mod partb {
         m.into_iter().map(|(k, v)| (k, v.into_iter().collect())).collect()
     }
 
-    fn trunc_lengths(rel: &str, n: usize) -> Vec<u64> {
+    fn trunc_lengths(rel: &str, n: usize, quick: bool) -> Vec<u64> {
         let mut v = BTreeSet::new();
         match class_of(rel) {
             "catalog" => {
-                for l in 0..=n + 1 {
+                for l in (0..=n + 1).step_by(if quick { 8 } else { 1 }) {
                     v.insert(l as u64);
                 }
+                v.insert(n as u64 - 1);
+                v.insert(n as u64 + 1);
             }
             c => {
                 let unit = if c == "wal" { FRAME } else { PAGE };
@@ -2271,6 +2368,9 @@ mod partb {
                 r.count("db.open_us", t1.elapsed().as_micros() as u64);
                 let t2 = std::time::Instant::now();
                 for (t, pk, ix) in self.plan.tables {
+                    if self.only_table.map(|o| o != *t).unwrap_or(false) {
+                        continue;
+                    }
                     r.call("select_all", || db.query(&format!("SELECT * FROM {t}")).map(|v| v.len()));
                     r.call("count", || db.query(&format!("SELECT COUNT(*) FROM {t}")).map(|v| v.len()));
                     r.call("pk_lookup", || db.query(pk).map(|v| v.len()));
@@ -2320,18 +2420,30 @@ mod partb {
                     return;
                 }
                 let n = cases.len() as u64;
-                v.push(Box::new(BBlock { info: BlockInfo { key, dec: format!("db.{}", class_of(rel)), kind: kind.to_string(), n, hang_s: HANG_B_S, alarm_every: 1 }, plan: plan.clone(), file, cases }));
+                // files root/<table>.tbd, root/<table>_<index>.idx, root/<table>_toast.tbd belong to one table
+                let owner: Option<&'static str> = if quick { rel.strip_prefix("root/").and_then(|f| plan.tables.iter().map(|t| t.0).find(|t| f.starts_with(&format!("{t}.")) || f.starts_with(&format!("{t}_")))) } else { None };
+                v.push(Box::new(BBlock { info: BlockInfo { key, dec: format!("db.{}", class_of(rel)), kind: kind.to_string(), n, hang_s: HANG_B_S, alarm_every: 1 }, plan: plan.clone(), file, cases, only_table: owner }));
             };
             push(&mut v, 0, "identity", vec![BCase::Identity]);
             for fi in 0..plan.db.files.len() {
                 let (rel, bytes) = &plan.db.files[fi];
+                if quick {
+                    // structurally redundant files are left to the thorough tier
+                    let skip = match plan.db.name {
+                        "main" => ["root/a_toast.tbd", "root/c_toast.tbd", "turdb_catalog/memory_stats.tbd"].contains(&rel.as_str()),
+                        _ => !(rel.starts_with("wal/") || rel == "root/w.tbd" || rel == "turdb.catalog" || rel == "turdb.meta"),
+                    };
+                    if skip {
+                        continue;
+                    }
+                }
                 // the WAL-crashed database differs from the main one only by its wal/ directory and table w:
                 // its system tables / meta are enumerated too (recovery runs before them)
                 for (kind, offs) in regions(rel, bytes, quick) {
                     let cases: Vec<BCase> = offs.iter().flat_map(|o| (0..4u8).map(move |vi| BCase::Subst { off: *o, vi })).collect();
                     push(&mut v, fi, kind, cases);
                 }
-                push(&mut v, fi, "trunc", trunc_lengths(rel, bytes.len()).into_iter().map(BCase::Len).collect());
+                push(&mut v, fi, "trunc", trunc_lengths(rel, bytes.len(), quick).into_iter().map(BCase::Len).collect());
             }
         }
         v
@@ -2351,8 +2463,8 @@ impl Check for C23 {
             "PART A: for every pub decoder and every seed (a valid encoding built with the real encoder, one per structural shape): every single-byte substitution at every offset (all 256 values for seeds <= 160 bytes, else {00,01,7F,80,FE,FF,b^1,b^80}), every truncation length, every single-byte insertion ({00,01,7F,80,FE,FF}) and deletion at every offset (page-sized inputs: size-preserving shift variants and zeroed tails), all byte strings of length <= 2 over 256 values and length 3 over 16 values, constant/periodic strings of length 64/1024/16384; inputs end at a PROT_NONE page. PART B: for every file of a real 3-table database (secondary index, TOAST values, 2-level tree) and of a WAL-crashed database: byte substitutions {00,FF,b^1,b^80} over file headers, page headers, slot arrays, cell headers (other bytes in strides) and truncations to every page multiple and +-1, each followed by Database::open, SELECT *, COUNT(*), PK lookup, indexed lookup per table, close. A case is one mutated input; cases are pairwise distinct by construction (identity and duplicate substitutions are skipped); every case differs from a valid encoding (non-trivial).",
         );
         s.assumptions = &[
-            "oracle = every call returns Ok or Err in bounded time: a panic (caught per call), abort, SIGSEGV/SIGBUS (guard page), stack overflow or hang (>2 s part A, >5 s part B) is a violation; returned values are not compared",
-            "children run with RLIMIT_AS = 4 GiB and RLIMIT_FSIZE = 1 GiB: an allocation or file growth beyond that requested by a <= 64 KiB input counts as abort / Err",
+            "oracle = every call returns Ok or Err in bounded time: a panic (caught per call), abort, SIGSEGV/SIGBUS (guard page), stack overflow or hang (a case consuming more than 2 s of CPU time — or 60 s of wall time without CPU — inside its block AND 3x that when re-run alone in a fresh process) is a violation; returned values are not compared",
+            "children run with RLIMIT_AS = 1.5 GiB and RLIMIT_FSIZE = 1 GiB: an allocation or file growth beyond that requested by a <= 64 KiB input counts as abort / Err",
             "built with debug-assertions and overflow-checks on (workspace dev profile): arithmetic overflow panics are reported with class *-overflow",
             "two or more simultaneous byte errors are outside the bound (except zeroed tails, truncations and checksum-consistent WAL header edits)",
         ];
@@ -2386,8 +2498,25 @@ impl Check for C23 {
         let mut env = Env::new(&ctx.scratch, shared.clone());
         let blocks = all_blocks(ctx, None);
         rep.bound("subst_all_256_values_up_to_len", json!(ALL_VALUES_MAX_LEN));
+        rep.bound("part_a_offsets", if ctx.quick() {
+            json!("quick: every offset for seeds <= 1024 bytes (file-based decoders catalog_file/wal: <= 160 bytes); larger seeds: structural regions (headers, used page areas) dense + stride 64 (subst) / 256 (other kinds); file-based decoders: header regions dense + stride 16 (<= 2 KiB) / 1024")
+        } else {
+            json!("thorough: every offset of every seed for every mutation kind")
+        });
         rep.bound("blocks", json!(blocks.len()));
         rep.bound("hang_limit_s", json!({"A": HANG_A_S, "B": HANG_B_S}));
+        rep.bound("part_b_density", if ctx.quick() {
+            json!("quick: files = main db without its two empty toast tables and one of the two system tables, WAL-crashed db: wal segment, table w, catalog, meta; file header fields (bytes 16..64) dense, magic every 4th, reserved every 16th; page headers dense; slot entries and cell headers (key + length varint + 8 value bytes) of the first and last cell of every page; catalog header dense + every 8th body byte and length; WAL frame headers of the first 2 and the last frame; all other bytes every 4096; x {00,FF,b^1,b^80}; after open, the queries run on the table owning the corrupted file (all tables for meta, catalog, system-table and WAL files)")
+        } else {
+            json!("thorough: every byte of file headers, page headers, slot arrays, cell headers (key + length varint + 24 value bytes) of every cell, catalog, every WAL frame header; all other bytes every 64; x {00,FF,b^1,b^80}")
+        });
+        let nb: u64 = blocks.iter().filter(|b| b.info().key.starts_with("B/")).map(|b| b.info().n).sum();
+        rep.bound("part_b_case_slots", json!(nb));
+        let mut by_kind: BTreeMap<String, u64> = BTreeMap::new();
+        for b in blocks.iter().filter(|b| b.info().key.starts_with("B/")) {
+            *by_kind.entry(format!("{}/{}", b.info().dec, b.info().kind)).or_insert(0) += b.info().n;
+        }
+        rep.bound("part_b_slots_by_kind", json!(by_kind));
         let mut base = 0u64;
         let mut sels = Vec::new();
         for b in &blocks {
@@ -2436,7 +2565,7 @@ impl Check for C23 {
                 let (outs, died) = iso::run_child(&ctx.scratch, &shared, |em| {
                     shared.set_block(bi as u64);
                     let mut out = Out::default();
-                    child_run_block(b.as_ref(), &Mode::Prefix { sel, upto: i, skip: &skip }, &mut env, &shared, &mut out, 1, None);
+                    child_run_block(b.as_ref(), &Mode::Prefix { sel, upto: i, skip: &skip }, 0, &mut env, &shared, &mut out, 1, None, None);
                     em.emit(bi, &out);
                 });
                 for (_, o) in &outs {
@@ -2456,7 +2585,7 @@ impl Check for C23 {
                 let (outs, died) = iso::run_child(&ctx.scratch, &shared, |em| {
                     shared.set_block(bi as u64);
                     let mut out = Out::default();
-                    child_run_block(b.as_ref(), &Mode::Only(i), &mut env, &shared, &mut out, 5, None);
+                    child_run_block(b.as_ref(), &Mode::Only(i), 0, &mut env, &shared, &mut out, HANG_CONFIRM_MULT, None, None);
                     em.emit(bi, &out);
                 });
                 for (_, o) in &outs {
@@ -2482,7 +2611,7 @@ fn quiet_env() {
     unsafe {
         libc::mallopt(libc::M_TRIM_THRESHOLD, 1 << 30);
         libc::mallopt(libc::M_TOP_PAD, 64 << 20);
-        libc::mallopt(libc::M_MMAP_THRESHOLD, 32 << 20);
+        libc::mallopt(libc::M_MMAP_THRESHOLD, 1 << 20);
     }
 }
 
